@@ -15,25 +15,6 @@ re-sends its shadow list (`C14.Flush.drain_completes`, `resend_complete`) and th
 ROB serves the re-sent requests (`eventually_answered_from_arrival`, `served_in_order_after_restart`). -/
 namespace C15.Cu
 
-theorem roundMu_le_of {σ σ' : Comp} (h1 : σ'.robPh = σ.robPh)
-    (h2 : σ'.sys.rob.ctlIn.length ≤ σ.sys.rob.ctlIn.length) : roundMu σ' ≤ roundMu σ := by
-  unfold roundMu
-  rw [h1]
-  rcases ha : σ.sys.rob.ctlIn with _ | ⟨a, l⟩
-  · rw [ha] at h2
-    have : σ'.sys.rob.ctlIn = [] := List.length_eq_zero_iff.mp (Nat.le_zero.mp h2)
-    rw [this]; exact Nat.le_refl _
-  · rcases σ'.sys.rob.ctlIn with _ | ⟨b, l'⟩ <;> split <;> simp
-
-theorem roundMu_zero {σ : Comp} (h : roundMu σ = 0) : σ.robPh = 0 := by
-  unfold roundMu at h
-  split at h
-  · assumption
-  · split at h <;> omega
-  · omega
-  · split at h <;> omega
-  · omega
-
 /-- **No legal event pushes the round back.** For every state of the composition and every event
     the protocol allows (ticks of either component, traffic on the connection, the memory, the command
     processor's messages): the number of steps of the round still to come does not grow — except that
@@ -129,41 +110,6 @@ theorem round_helpful_decreases (c : Cfg) (hcap : 0 < c.rob.ctlOutCap) (σ : Com
 example : helpfulCountR demoCfg (crun demoCfg (roundEvs.take 8)) ((roundEvs.drop 8).take 7) = 6 ∧
     helpfulR demoCfg (crun demoCfg (roundEvs.take 9)) (.rob .tick) = true := by decide
 
-theorem legalRunB_append (c : Cfg) (a b : List CEv) (σ : Comp) :
-    legalRunB c σ (a ++ b) = true → legalRunB c σ a = true ∧ legalRunB c (a.foldl (cstep c) σ) b = true := by
-  induction a generalizing σ with
-  | nil => intro h; exact ⟨rfl, h⟩
-  | cons e es ih =>
-    intro h
-    simp only [List.cons_append, legalRunB, Bool.and_eq_true] at h
-    have := ih (cstep c σ e) h.2
-    simp only [legalRunB, Bool.and_eq_true, List.foldl_cons]
-    exact ⟨⟨h.1, this.1⟩, this.2⟩
-
-theorem fold_roundMu (c : Cfg) (hcap : 0 < c.rob.ctlOutCap) : ∀ (es : List CEv) (σ : Comp), Proto σ →
-    legalRunB c σ es = true →
-    (∃ k, k ≤ es.length ∧ ((es.take k).foldl (cstep c) σ).robPh = 0) ∨
-    roundMu (es.foldl (cstep c) σ) + helpfulCountR c σ es ≤ roundMu σ := by
-  intro es
-  induction es with
-  | nil => intro σ _ _; right; simp [helpfulCountR]
-  | cons e es ih =>
-    intro σ hp hl
-    simp only [legalRunB, Bool.and_eq_true] at hl
-    by_cases h0 : σ.robPh = 0
-    · left; exact ⟨0, Nat.zero_le _, h0⟩
-    · have hp' := cstep_Proto c σ e hl.1 hp
-      rcases ih (cstep c σ e) hp' hl.2 with ⟨k, hk, hz⟩ | hle
-      · left; exact ⟨k + 1, by simp; omega, by simpa using hz⟩
-      · right
-        simp only [List.foldl_cons, helpfulCountR]
-        by_cases hh : helpfulR c σ e = true
-        · have := (round_helpful_decreases c hcap σ e hp hh).2
-          simp only [hh, if_true]; omega
-        · rcases round_measure_never_increases c σ e hl.1 with hle' | ⟨hz, _⟩
-          · simp only [hh, Bool.false_eq_true, if_false]; omega
-          · exact absurd hz h0
-
 /-- **The round is closed after at most `roundMu` (≤ 6) due events — bounded liveness of the
     handshake over every legal schedule of the composition.** From any reachable state, along any
     legal continuation (compute-unit ticks, connection traffic, memory answers, anything legal in
@@ -182,7 +128,30 @@ theorem round_completes_within (c : Cfg) (hcap : 0 < c.rob.ctlOutCap) (evs0 evs 
   have hp : Proto σ := comp_proto c evs0 hl0
   have hrun : ∀ l : List CEv, crun c (evs0 ++ l) = l.foldl (cstep c) σ := by
     intro l; simp [σ, crun, List.foldl_append]
-  have key := fold_roundMu c hcap evs σ hp hl1
+  have fold : ∀ (es : List CEv) (σ : Comp), Proto σ →
+      legalRunB c σ es = true →
+      (∃ k, k ≤ es.length ∧ ((es.take k).foldl (cstep c) σ).robPh = 0) ∨
+      roundMu (es.foldl (cstep c) σ) + helpfulCountR c σ es ≤ roundMu σ := by
+    intro es
+    induction es with
+    | nil => intro σ _ _; right; simp [helpfulCountR]
+    | cons e es ih =>
+      intro σ hp hl
+      simp only [legalRunB, Bool.and_eq_true] at hl
+      by_cases h0 : σ.robPh = 0
+      · left; exact ⟨0, Nat.zero_le _, h0⟩
+      · have hp' := cstep_Proto c σ e hl.1 hp
+        rcases ih (cstep c σ e) hp' hl.2 with ⟨k, hk, hz⟩ | hle
+        · left; exact ⟨k + 1, by simp; omega, by simpa using hz⟩
+        · right
+          simp only [List.foldl_cons, helpfulCountR]
+          by_cases hh : helpfulR c σ e = true
+          · have := (round_helpful_decreases c hcap σ e hp hh).2
+            simp only [hh, if_true]; omega
+          · rcases round_measure_never_increases c σ e hl.1 with hle' | ⟨hz, _⟩
+            · simp only [hh, Bool.false_eq_true, if_false]; omega
+            · exact absurd hz h0
+  have key := fold evs σ hp hl1
   constructor
   · rcases key with ⟨k, hk, hz⟩ | hle
     · left; exact ⟨k, hk, by rw [hrun]; exact hz⟩
